@@ -1,10 +1,14 @@
 package props
 
 import (
+	"fmt"
 	"testing"
 
 	"verifharness/core"
 	"verifharness/gen"
+	"verifharness/ref"
+
+	"github.com/willabides/rjson"
 
 	"pgregory.net/rapid"
 )
@@ -81,6 +85,59 @@ func TestC12(t *testing.T) {
 			r.Begin("scalar", b)
 			if err := core.Catch(func() error { return eval("scalar", b) }); err != nil {
 				failRapid(rt, r, caseOf("C12", "scalar", b, err), err)
+			}
+		})
+		// 2b. sequences on one persistent target and one persistent scratch: the initial value of
+		// a call is whatever the previous Decode call stored (compared with an independent
+		// byte-wise clone, since a stored string may alias library-side memory)
+		e.rapidStage("sequences", "stateful", e.cfg.N(6000, 400000), func(rt *rapid.T) {
+			var target = "seed value"
+			expect := cloneString(target)
+			scratch := make([]byte, 0, rapid.IntRange(0, 64).Draw(rt, "scratchcap"))
+			n := rapid.IntRange(2, 7).Draw(rt, "calls")
+			var hist []core.Case
+			for i := 0; i < n; i++ {
+				var b []byte
+				switch rapid.IntRange(0, 5).Draw(rt, "inputkind") {
+				case 0:
+					b = []byte("null")
+				case 1: // fails after a prefix and an escape has been processed
+					b = append(append([]byte{'"'}, gen.StrContent(rt, 4)...), []string{`\q"`, `\`, "\x01\"", `\u12"`}[rapid.IntRange(0, 3).Draw(rt, "tail")]...)
+				case 2:
+					b = gen.Num(rt, nil)
+				default:
+					b = gen.Str(rt, nil, rapid.IntRange(0, 6).Draw(rt, "pieces"))
+				}
+				hist = append(hist, core.Case{Kind: "DecodeString", In: b})
+				r.Begin("sequence", b)
+				want, wp, werr := rjson.ReadString(append([]byte(nil), b...), nil)
+				p, err := rjson.DecodeString(b, &target, &scratch)
+				i0 := ref.SkipWS(b, 0)
+				key := core.HashInts(core.Hash(b), int64(i), int64(len(hist)))
+				r.Eval(key, true)
+				r.Label("outcome.sequence")
+				var verr error
+				switch {
+				case werr == nil:
+					if err != nil || p != wp || target != want {
+						verr = fmt.Errorf("call %d: ReadString gives (%q, %d) but DecodeString with the persistent scratch gives p=%d err=%v target=%q", i, want, wp, p, err, target)
+					}
+					expect = cloneString(want)
+				case hasLit(b, i0, "null"):
+					if err != nil || p != i0+4 || target != expect {
+						verr = fmt.Errorf("call %d on null: p=%d err=%v target=%q; want target unchanged %q", i, p, err, target, expect)
+					}
+				default:
+					if err == nil {
+						verr = fmt.Errorf("call %d: DecodeString accepted %q", i, b)
+					} else if target != expect {
+						verr = fmt.Errorf("call %d: DecodeString failed (%v) on %q but the target changed from %q to %q (the value stored by an earlier call on the same scratch)", i, err, b, expect, target)
+					}
+				}
+				if verr != nil {
+					c := &core.Case{Prop: "C12", Kind: "sequence", Steps: append([]core.Case(nil), hist...), Ints: []int64{int64(cap(scratch))}}
+					failRapid(rt, r, c, verr)
+				}
 			}
 		})
 		// 3. shared byte-level generators for breadth
